@@ -194,7 +194,12 @@ func structuralGuards(b *ssa.BasicBlock) []fw.Guard {
 // hold are listed as is; conditions that do not hold are listed negated unless they are equality
 // tests against a constant (the "other cases" of a switch, which would make a default arm depend
 // on every case).
-func (f *c15Family) guardsOf(b *ssa.BasicBlock) string {
+func (f *c15Family) guardsOf(b *ssa.BasicBlock) string { return f.guardsOfX(b, false, nil) }
+
+// guardsOfX: full also lists the negated constant-equality tests (used for the arms that end the
+// decode with an error: "none of the known cases" is their whole meaning); edge adds the outcome
+// of the block's own terminating If towards the given successor (used for merged values).
+func (f *c15Family) guardsOfX(b *ssa.BasicBlock, full bool, edge *ssa.BasicBlock) string {
 	set := map[string]bool{}
 	// counted loops in rotated form (range-over-int): the body block carries the induction phi and
 	// the latch tests iv+1 < N
@@ -220,7 +225,11 @@ func (f *c15Family) guardsOf(b *ssa.BasicBlock) string {
 			}
 		}
 	}
-	for _, g := range structuralGuards(b) {
+	gs := structuralGuards(b)
+	if edge != nil {
+		gs = append(gs, edgeGuard(b, edge)...)
+	}
+	for _, g := range gs {
 		g = g.Normalize()
 		s := f.expr(g.Cond)
 		if bo, ok := g.Cond.(*ssa.BinOp); ok && g.True && bo.Op == token.LSS {
@@ -231,18 +240,26 @@ func (f *c15Family) guardsOf(b *ssa.BasicBlock) string {
 				}
 			}
 		}
-		if strings.Contains(s, "phi{") || strings.Contains(s, "…") || strings.Contains(s, "↺") || strings.Contains(s, "range") || strings.Contains(s, "iv(-1)") {
+		if !full && (strings.Contains(s, "phi{") || strings.Contains(s, "…") || strings.Contains(s, "↺") || strings.Contains(s, "range") || strings.Contains(s, "iv(-1)")) {
 			continue
 		}
 		if g.True {
 			set[s] = true
 			continue
 		}
-		if bo, ok := g.Cond.(*ssa.BinOp); ok && bo.Op == token.EQL {
+		if bo, ok := g.Cond.(*ssa.BinOp); ok && bo.Op == token.EQL && !full {
 			if _, ok := stripConv(bo.Y).(*ssa.Const); ok {
 				continue
 			}
 			if _, ok := stripConv(bo.X).(*ssa.Const); ok {
+				continue
+			}
+		}
+		if full || edge != nil {
+			// the new entry kinds list a failed comparison as the complementary comparison, so that
+			// if !(a == b) and if a != b are the same fact
+			if t, ok := f.negCmp(g.Cond); ok {
+				set[strings.ReplaceAll(t, "*", "×")] = true
 				continue
 			}
 		}
@@ -359,13 +376,35 @@ func (w *c15World) layout(root *ssa.Function) map[string][]c15Entry {
 		onStack[fn] = true
 		defer delete(onStack, fn)
 		f := w.fam(fn)
-		add := func(text string, ins ssa.Instruction, call *ssa.Call) {
+		addG := func(text string, ins ssa.Instruction, call *ssa.Call, guards string) {
 			ch := append(append([]ssa.Instruction{}, chain...), ins)
-			out[ctx] = append(out[ctx], c15Entry{Ctx: ctx, Text: text, Call: call, Ins: ins, Fn: fn, Chain: ch, Guards: andGuards(outer, f.guardsOf(ins.Block()))})
+			out[ctx] = append(out[ctx], c15Entry{Ctx: ctx, Text: text, Call: call, Ins: ins, Fn: fn, Chain: ch, Guards: andGuards(outer, guards)})
+		}
+		add := func(text string, ins ssa.Instruction, call *ssa.Call) {
+			addG(text, ins, call, f.guardsOf(ins.Block()))
 		}
 		for _, b := range fn.Blocks {
 			for _, ins := range b.Instrs {
 				switch x := ins.(type) {
+				case *ssa.Phi:
+					// a local that gets different values on different paths (compressedLimit = BitsLeft when
+					// the stored size is 0, l-1 / l+1 on a delta bit): one entry per incoming value with the
+					// condition of its edge, so that a negated or moved condition is seen
+					if !w.branches && c15MergePhi(x) {
+						vals := map[string]bool{}
+						for _, e := range x.Edges {
+							vals[f.renderArg(e)] = true
+						}
+						if len(vals) > 1 {
+							for i, e := range x.Edges {
+								v := f.renderArg(e)
+								if strings.Contains(v, "↺") || strings.Contains(v, "phi{") {
+									continue // loop-carried, or a nested merge that has its own entries
+								}
+								addG("merge("+v+")", ins, nil, f.guardsOfX(b.Preds[i], false, b))
+							}
+						}
+					}
 				case *ssa.Store:
 					if fa, ok := x.Addr.(*ssa.FieldAddr); ok && fieldNameOf(fa.X.Type(), fa.Field) == "Endian" {
 						if _, isP := fa.X.(*ssa.Parameter); isP {
@@ -409,6 +448,10 @@ func (w *c15World) layout(root *ssa.Function) map[string][]c15Entry {
 				case *ssa.If:
 					if w.branches {
 						add("branch("+f.expr(x.Cond)+")", ins, nil)
+					} else if ex := c15BreakEdge(b); ex != nil {
+						// a break out of a search/scan loop (bzip2's footer search, tar's zero block scan):
+						// the condition under which the loop is left early
+						addG("break", ins, nil, f.guardsOfX(b, true, ex))
 					}
 				case *ssa.Return:
 					var rs []string
@@ -421,7 +464,28 @@ func (w *c15World) layout(root *ssa.Function) map[string][]c15Entry {
 				case *ssa.Call:
 					cc := x.Common()
 					if m, ok := isDMethod(x); ok {
-						if !c15Consuming(m) {
+						if (m == "Fatalf" || m == "Errorf") && !w.branches {
+							// the arms that end the decode with an error: an intact file must not reach them and
+							// the cases they reject must stay rejected; listed with ALL conditions of the arm
+							msg := m
+							if len(cc.Args) > 1 {
+								if s, ok := constString(cc.Args[1]); ok {
+									msg = fmt.Sprintf("%s(%q)", m, s)
+								}
+							}
+							addG(msg, ins, nil, f.guardsOfX(b, true, nil))
+							continue
+						}
+						if strings.HasSuffix(m, "PeekFind") && !w.branches {
+							// the predicate of a signature search runs in the caller's context
+							for _, a := range cc.Args[1:] {
+								if c := w.fnValue(f, a); c != nil {
+									walk(c, ctx, andGuards(outer, f.guardsOf(b)), append(append([]ssa.Instruction{}, chain...), ins))
+								}
+							}
+							continue
+						}
+						if !c15Consuming(m) && !(strings.HasPrefix(m, "FieldValue") && !w.branches) {
 							continue
 						}
 						add(f.renderCall(x), ins, x)
@@ -444,6 +508,15 @@ func (w *c15World) layout(root *ssa.Function) map[string][]c15Entry {
 							cctx, co, cchain = ctx+"/"+name, "", nil
 						}
 						for _, a := range cc.Args[1:] {
+							if els, ok := variadicElems(a); ok && isSliceT(a.Type()) && !w.branches {
+								// value mappers written as closures of the decoder (sym = actual*2, year + 1980)
+								for _, e := range els {
+									if c := closureOf(e); c != nil && c.Parent() != nil && fw.InFq(c) {
+										walk(c, cctx, co, cchain)
+									}
+								}
+								continue
+							}
 							if c := w.fnValue(f, a); c != nil {
 								walk(c, cctx, co, cchain)
 							} else if phi, ok := stripConv(a).(*ssa.Phi); ok && isFuncT(a.Type()) {
@@ -499,6 +572,15 @@ func (w *c15World) layout(root *ssa.Function) map[string][]c15Entry {
 // fnValue resolves a function-typed value to a function of the program: a literal, a closure, or
 // a local that is assigned exactly one of those.
 func (w *c15World) fnValue(f *c15Family, v ssa.Value) *ssa.Function {
+	if call, ok := stripConv(v).(*ssa.Call); ok {
+		// decode.FormatFn(func(d *decode.D) any {...}): an inline format for a nested buffer
+		if callee := call.Common().StaticCallee(); callee != nil && callee.Name() == "FormatFn" && fw.FnPkgPath(callee) == c15DecodePkg && len(call.Common().Args) == 1 {
+			if c := closureOf(call.Common().Args[0]); c != nil && fw.InFq(c) {
+				return c
+			}
+		}
+		return nil
+	}
 	if !isFuncT(v.Type()) {
 		return nil
 	}
@@ -689,7 +771,7 @@ func c15DumpWanted() bool { return os.Getenv("C15_DUMP") != "" }
 // C15.layout
 
 func c15Layout(r *fw.Run, p *fw.Program, w *c15World) {
-	ru := r.Rule("C15.layout", "container decoders (gzip, zip, tar, png, gif, wav/riff, bzip2): every field read, seek, frame and state assignment of the decode tree has the reader, width, length provenance, value mappers/assert constants and branch condition of the format's layout table, in layout order, with no extra read in a tabled arm", 590)
+	ru := r.Rule("C15.layout", "container decoders (gzip, zip, tar, png, gif, wav/riff, bzip2): every field read, seek, frame, state assignment, reported synthetic value (FieldValue*), value-mapper closure, inline format of a nested buffer, signature-search predicate, merged local (one entry per incoming value with the condition of its edge), early loop exit (break with all conditions of its path) and error arm (Fatalf/Errorf with all conditions of the arm) of the decode tree has the reader, width, length provenance, value mappers/assert constants and branch condition of the format's layout table, in layout order, with no extra read in a tabled arm", 670)
 	ri := r.Rule("C15.inflate", "decompression plumbing: gzip/zip method 8 -> compress/flate, png zTXt/iCCP -> compress/zlib, bzip2 -> compress/bzip2, each passed to Field(Format)ReaderRange*/FieldFormatReaderLen with the tabled range; inside pkg/decode the compressed sub-range is handed to the decompressor, all of its output becomes the nested root buffer that is attached and returned, and the consumed size is 8 x the reader position", 38)
 	c15CompareTable(ru, ri, p, w, c15LayoutTable)
 }
@@ -839,4 +921,121 @@ func guardPart(entry string) string {
 		return entry[i+5:]
 	}
 	return ""
+}
+
+// c15MergePhi: a phi that merges values of a local at the join of an if/switch (not a loop header,
+// not an induction variable, not the boolean of a lowered && / ||).
+func c15MergePhi(x *ssa.Phi) bool {
+	if _, ok := ivStart(x); ok {
+		return false
+	}
+	if _, _, _, ok := c15ClampPhi(x); ok {
+		return false // rendered as min/max: the selecting condition is part of that meaning
+	}
+	b := x.Block()
+	for _, pred := range b.Preds {
+		if b.Dominates(pred) {
+			return false // loop header
+		}
+	}
+	if bt, ok := x.Type().Underlying().(*types.Basic); ok && bt.Kind() == types.Bool {
+		onlyCtl := true
+		if x.Referrers() != nil {
+			for _, r := range *x.Referrers() {
+				switch r.(type) {
+				case *ssa.If, *ssa.Phi, *ssa.DebugRef:
+				default:
+					onlyCtl = false
+				}
+			}
+		}
+		if onlyCtl {
+			return false
+		}
+	}
+	if isFuncT(x.Type()) {
+		return false // chosen functions are walked under the condition of their arm
+	}
+	return true
+}
+
+// negCmp renders the complement of a comparison in the normal form of atom1 (operands of == / !=
+// sorted, orderings written with < and <=). Orderings only over integers.
+func (f *c15Family) negCmp(v ssa.Value) (string, bool) {
+	bo, ok := v.(*ssa.BinOp)
+	if !ok {
+		return "", false
+	}
+	a, b := paren(f.sub(bo.X, 0)), paren(f.sub(bo.Y, 0))
+	switch bo.Op {
+	case token.EQL, token.NEQ:
+		if b < a {
+			a, b = b, a
+		}
+		if bo.Op == token.EQL {
+			return "(" + a + "!=" + b + ")", true
+		}
+		return "(" + a + "==" + b + ")", true
+	}
+	if !isIntegerT(bo.X.Type()) {
+		return "", false
+	}
+	switch bo.Op {
+	case token.LSS: // !(a<b) = b<=a
+		return "(" + b + "<=" + a + ")", true
+	case token.LEQ: // !(a<=b) = b<a
+		return "(" + b + "<" + a + ")", true
+	case token.GTR: // !(a>b) = a<=b
+		return "(" + a + "<=" + b + ")", true
+	case token.GEQ: // !(a>=b) = a<b
+		return "(" + a + "<" + b + ")", true
+	}
+	return "", false
+}
+
+// c15BreakEdge: b ends in an If inside a loop, one successor stays in the loop and the other
+// leaves it, and b is not the latch of a counted loop: the successor
+// that leaves (a break / return out of the loop body).
+func c15BreakEdge(b *ssa.BasicBlock) *ssa.BasicBlock {
+	if len(b.Succs) != 2 || !blockReachesStrict(b, b) {
+		return nil
+	}
+	ifi := b.Instrs[len(b.Instrs)-1].(*ssa.If)
+	if bo, ok := ifi.Cond.(*ssa.BinOp); ok {
+		for _, op := range []ssa.Value{bo.X, bo.Y} {
+			if add, ok := op.(*ssa.BinOp); ok && add.Op == token.ADD {
+				if ph, ok := add.X.(*ssa.Phi); ok {
+					if _, ok := ivStart(ph); ok {
+						return nil // latch of a counted loop
+					}
+				}
+			}
+		}
+	}
+	t, e := blockReachesStrict(b.Succs[0], b) || b.Succs[0] == b, blockReachesStrict(b.Succs[1], b) || b.Succs[1] == b
+	switch {
+	case t && !e:
+		return b.Succs[1]
+	case e && !t:
+		return b.Succs[0]
+	}
+	return nil
+}
+
+func blockReachesStrict(from, to *ssa.BasicBlock) bool {
+	seen := map[*ssa.BasicBlock]bool{}
+	stack := append([]*ssa.BasicBlock{}, from.Succs...)
+	for len(stack) > 0 {
+		x := stack[len(stack)-1]
+		stack = stack[:len(stack)-1]
+		if seen[x] {
+			continue
+		}
+		seen[x] = true
+		if x == to {
+			return true
+		}
+		stack = append(stack, x.Succs...)
+	}
+	return false
 }
